@@ -235,6 +235,11 @@ func MakeAF(kind string, idx int) *astits.PacketAdaptationField {
 		return &astits.PacketAdaptationField{StuffingLength: 172}
 	case "noroomstuffpcr":
 		return &astits.PacketAdaptationField{HasPCR: true, PCR: cr(int64(idx)*3003+11, 2), StuffingLength: 170}
+	case "allfixed": // every fixed-size part at once: PCR, OPCR, splice countdown, private data, the full extension
+		return &astits.PacketAdaptationField{RandomAccessIndicator: true, HasPCR: true, PCR: cr(int64(idx)*100+7, 3), HasOPCR: true, OPCR: cr(int64(idx)*100+9, 5),
+			HasSplicingCountdown: true, SpliceCountdown: 9, HasTransportPrivateData: true, TransportPrivateData: []byte{1, 2, 3}, TransportPrivateDataLength: 3,
+			HasAdaptationExtensionField: true, AdaptationExtensionField: &astits.PacketAdaptationExtensionField{HasLegalTimeWindow: true, LegalTimeWindowIsValid: true, LegalTimeWindowOffset: 0x1234,
+				HasPiecewiseRate: true, PiecewiseRate: 0x2abcde, HasSeamlessSplice: true, SpliceType: 9, DTSNextAccessUnit: cr(0x1_2345_6789, 0)}}
 	case "opcr": // OPCR without PCR, with the other fixed-size parts
 		return &astits.PacketAdaptationField{HasOPCR: true, OPCR: cr(int64(idx)*7+0x1_0000_0001, 0x1ff), HasSplicingCountdown: true, SpliceCountdown: 0xfd, DiscontinuityIndicator: true} // 0xfd: the form the parser returns for a negative countdown
 	case "splice":
